@@ -17,7 +17,8 @@ for q in names:
         print(q, 'paths', r['paths'], 'obligations', len(r['obligations']))
         allob += r['obligations']
     except Exception as e:
-        import traceback; traceback.print_exc()
+        import traceback, os
+        if os.environ.get('TB'): traceback.print_exc()
         print("FAILED", q, e)
 t0=time.time()
 res = discharge(allob, timeout_s=10)
